@@ -464,6 +464,13 @@ def check_C13(tier, seed):
             for (lg, le, d2, de) in [(True, False, True, True), (True, True, True, False), (True, True, False, False), (False, False, True, True),
                                      (True, True, True, True)]:
                 cases.append({"maj": maj, "min": mn, "pat": pat, "variant": variant, "legacy": lg, "db2": d2, "legacy_empty": le, "db2_empty": de})
+    # the legacy layout without its companion file p.db: layout and version are told by m.db alone (Expected does not mention
+    # p.db), so every supported 1.x triple still loads as its schema and every other triple is still refused as unsupported
+    for (maj, mn, pat) in [(1, 6, 0), (1, 7, 1), (1, 9, 1), (1, 11, 1), (1, 13, 0), (1, 13, 1), (1, 13, 2), (1, 15, 0), (1, 17, 0), (1, 18, 0),
+                           (1, 18, 1), (1, 6, 1), (1, 8, 0), (0, 0, 0), (2, 18, 0), (3, 0, 0)]:
+        for variant in ("os", "desktop"):
+            cases.append({"maj": maj, "min": mn, "pat": pat, "variant": variant, "legacy": True, "db2": False, "nop": True})
+            cases.append({"maj": maj, "min": mn, "pat": pat, "variant": variant, "legacy": True, "db2": True, "nop": True})
     lines = [json.dumps(c) + "\n" for c in cases]
     ins = shard_lines(lines, wd, "det", vlib.NCPU)
 
